@@ -121,13 +121,50 @@ class C20(fw.Prop):
                 from dlms_cosem.time import ClockStatus
                 return "ok " + str(ClockStatus(*[bool(x) for x in bits]).to_bytes()[0])
             return fw.Case("fld clk to " + " ".join(str(x) for x in bits), impl, "prop", d, tags)
+        if op == "frame_fields":
+            # the two fields where they live: format word and control byte of a serialised information frame, for every
+            # combination of numbers and flags - also from a frame object that was serialised with other values before
+            ssn, rsn, fin, seg, n = d["ssn"], d["rsn"], d["fin"], d["seg"], d["n"]
+
+            def impl():
+                from dlms_cosem.hdlc import address, frames
+                c, srv = address.HdlcAddress(16, None, "client"), address.HdlcAddress(1, 17, "server")
+                payload = bytes(range(n))
+                fresh = frames.InformationFrame(c, srv, payload, send_sequence_number=ssn, receive_sequence_number=rsn, segmented=bool(seg), final=bool(fin))
+                used = frames.InformationFrame(c, srv, b"\x01\x02\x03", send_sequence_number=(ssn + 3) % 8, receive_sequence_number=(rsn + 5) % 8,
+                                               segmented=not seg, final=not fin)
+                used.to_bytes()
+                used.payload, used.send_sequence_number, used.receive_sequence_number = payload, ssn, rsn
+                used.segmented, used.final = bool(seg), bool(fin)
+                problems = []
+                for name, f in (("fresh", fresh), ("re-used", used)):
+                    b = f.to_bytes()
+                    fmt, ctrl = int.from_bytes(b[1:3], "big"), b[6]
+                    want_fmt = 0xA000 | (0x0800 if seg else 0) | (len(b) - 2)
+                    want_ctrl = (rsn << 5) | (0x10 if fin else 0) | (ssn << 1)
+                    if fmt != want_fmt:
+                        problems.append(f"{name}-format:{fmt:#06x}!={want_fmt:#06x}")
+                    if ctrl != want_ctrl:
+                        problems.append(f"{name}-control:{ctrl:#04x}!={want_ctrl:#04x}")
+                return "ok frame-fields" + ("" if not problems else " " + ",".join(problems))
+            return fw.Case("echo frame-fields", impl, "prop", d, tags)
         if op == "clk_from":
             v = d["v"]
 
             def impl():
                 from dlms_cosem.time import ClockStatus
                 c = fresh_decode(lambda: ClockStatus.from_bytes(bytes([v])))
-                return "ok " + " ".join(b01(x) for x in (c.invalid, c.doubtful, c.different_base, c.invalid_status, c.daylight_saving_active))
+                out = "ok " + " ".join(b01(x) for x in (c.invalid, c.doubtful, c.different_base, c.invalid_status, c.daylight_saving_active))
+                # the same byte where it lives: as the last byte of a date-time (decoded and written back)
+                from dlms_cosem import time as t
+                raw = bytes.fromhex("07e40106ff00030000ffc4") + bytes([v])
+                dt, st = t.datetime_from_bytes(raw)
+                if st != c:
+                    out += f" !status-inside-a-date-time-decodes-to:{st!r}"
+                back = t.datetime_to_bytes(dt, st)
+                if back[-1] != ClockStatus.from_bytes(bytes([v])).to_bytes()[0]:
+                    out += f" !status-inside-a-date-time-written-back-as:{back[-1]:#04x}"
+                return out
             return fw.Case(f"fld clk from {v}", impl, "prop", d, tags)
         if op == "ctl_const":
             which = d["which"]
@@ -255,6 +292,11 @@ class C20(fw.Prop):
 
     def cases(self, rng, tier, deep):
         mk = self.make_case
+        for ssn in range(8):
+            for rsn in range(8):
+                for fin in (0, 1):
+                    for seg in (0, 1):
+                        yield mk({"op": "frame_fields", "ssn": ssn, "rsn": rsn, "fin": fin, "seg": seg, "n": (ssn * 8 + rsn) % 50})
         # conformance: all 2^17 flag sets (thorough) / all sets of weight <=2, >=15 + 8192 random (quick)
         if deep:
             for m in range(1 << 17):
